@@ -264,7 +264,9 @@ class NDNApp:
         try:
             data_name, meta_info, content, sig, raw_packet = await aio.wait_for(future, timeout=lifetime/1000.0)
         except TimeoutError:
-            if node.timeout(future):
+            # A packet answering this Interest may have been handled after the timer fired but before this
+            # coroutine resumed, and have removed the node already
+            if node.timeout(future) and self._int_tree.get(node_name) is node:
                 del self._int_tree[node_name]
             raise InterestTimeout()
         except aio.CancelledError:
